@@ -371,48 +371,7 @@ func runC03(w *World, r *Report) {
 
 	// ---- poll-all
 	r.Rule("C03.poll-all", "getFromReadyChannels calls get on every channel of the run, unconditionally", 1)
-	gfr := w.Fn("compose", "channelManager.getFromReadyChannels")
-	fCh := w.Field("compose", "channelManager", "channels")
-	var rng *ssa.Range
-	instrs(gfr, func(in ssa.Instruction) {
-		if rg, ok := in.(*ssa.Range); ok && isLoadOfField(rg.X, fCh) {
-			rng = rg
-		}
-	})
-	var getCall ssa.CallInstruction
-	instrs(gfr, func(in ssa.Instruction) {
-		if invokeName(in) == "get" {
-			getCall = in.(ssa.CallInstruction)
-		}
-	})
-	if rng == nil || getCall == nil {
-		r.Fail("C03.poll-all", "getFromReadyChannels polls channelManager.channels", gfr.Pos(), "no range over c.channels with a get call")
-	} else {
-		// from the loop body's entry, no path reaches the next iteration or a return without calling get
-		inner := 0
-		var next *ssa.Next
-		instrs(gfr, func(in ssa.Instruction) {
-			if n, ok := in.(*ssa.Next); ok && n.Iter == ssa.Value(rng) {
-				next = n
-			}
-		})
-		if next == nil {
-			undecidedf("C03.poll-all: range over channels has no Next")
-		}
-		body := next.Block().Succs[0]
-		if skip, _ := pathFromBlock(pathQuery{fn: gfr, goal: func(in ssa.Instruction) bool { return in == ssa.Instruction(next) || isReturn(in) },
-			avoid: func(in ssa.Instruction) bool { return in == ssa.Instruction(getCall) }}, body); skip {
-			inner = 1
-		}
-		// the channel polled is the range's value
-		fromRange := false
-		if e, ok := getCall.Common().Value.(*ssa.Extract); ok {
-			if n, ok := e.Tuple.(*ssa.Next); ok && n.Iter == ssa.Value(rng) {
-				fromRange = true
-			}
-		}
-		r.Check(inner == 0 && fromRange, "C03.poll-all", "getFromReadyChannels polls every channel", getCall.Pos(), "get is called for every entry of c.channels without a filter", "some channels are not polled in a round (a node that became ready through a skip report is never scheduled, depending on completion order)")
-	}
+	pollAllCheck(w, r, "C03.poll-all")
 
 	// ---- wait-all-drains
 	r.Rule("C03.wait-all-drains", "waitAll returns only when waitOne reports nothing outstanding; wait = waitAll in batch mode", 2)
@@ -554,4 +513,52 @@ func computedTasksKept(w *World, r *Report, rule string) {
 	if n < 2 {
 		undecidedf("%s: %d (calculateNextTasks, handleInterrupt) pairs in run (floor 2)", rule, n)
 	}
+}
+
+// pollAllCheck: getFromReadyChannels asks every channel of the run in every round (a DAG channel can become
+// ready without having been written to in that round: through a skip report).
+func pollAllCheck(w *World, r *Report, rule string) {
+	gfr := w.Fn("compose", "channelManager.getFromReadyChannels")
+	fCh := w.Field("compose", "channelManager", "channels")
+	var rng *ssa.Range
+	instrs(gfr, func(in ssa.Instruction) {
+		if rg, ok := in.(*ssa.Range); ok && isLoadOfField(rg.X, fCh) {
+			rng = rg
+		}
+	})
+	var getCall ssa.CallInstruction
+	instrs(gfr, func(in ssa.Instruction) {
+		if invokeName(in) == "get" {
+			getCall = in.(ssa.CallInstruction)
+		}
+	})
+	if rng == nil || getCall == nil {
+		r.Fail(rule, "getFromReadyChannels polls channelManager.channels", gfr.Pos(), "no range over c.channels with a get call")
+	} else {
+		// from the loop body's entry, no path reaches the next iteration or a return without calling get
+		inner := 0
+		var next *ssa.Next
+		instrs(gfr, func(in ssa.Instruction) {
+			if n, ok := in.(*ssa.Next); ok && n.Iter == ssa.Value(rng) {
+				next = n
+			}
+		})
+		if next == nil {
+			undecidedf(rule + ": range over channels has no Next")
+		}
+		body := next.Block().Succs[0]
+		if skip, _ := pathFromBlock(pathQuery{fn: gfr, goal: func(in ssa.Instruction) bool { return in == ssa.Instruction(next) || isReturn(in) },
+			avoid: func(in ssa.Instruction) bool { return in == ssa.Instruction(getCall) }}, body); skip {
+			inner = 1
+		}
+		// the channel polled is the range's value
+		fromRange := false
+		if e, ok := getCall.Common().Value.(*ssa.Extract); ok {
+			if n, ok := e.Tuple.(*ssa.Next); ok && n.Iter == ssa.Value(rng) {
+				fromRange = true
+			}
+		}
+		r.Check(inner == 0 && fromRange, rule, "getFromReadyChannels polls every channel", getCall.Pos(), "get is called for every entry of c.channels without a filter", "some channels are not polled in a round (a node that became ready through a skip report is never scheduled, depending on completion order)")
+	}
+
 }
